@@ -12,10 +12,12 @@ ENG_NOTE = ('Serial transactions in one process (tx_lock) - statement-level race
             'messaging (duplicates/reordering explored, no loss).')
 ENG_TECH = 'TLA+ property formulas (EngineProps) evaluated by TLC on every step of recorded runs of the real engine under controlled schedules'
 ENG_MODEL = (' Model level: MistralEngine.tla (one action per atomic step of the code: start, post-commit operations, message deliveries, '
-             'three-step scheduler jobs, operator pause / resume / stop, redeliveries, clock) is model-checked exhaustively by TLC on the '
+             'scheduler jobs of BOTH scheduler implementations (default: capture / invoke / delete per job; legacy: poll pass), the pause command and '
+             'its backlog, operator pause / resume / stop, redeliveries, retry / wait-before / wait-after / timeout policies, clock) is model-checked exhaustively by TLC on the '
              'shape catalogue with the stated operator / redelivery budgets, the property formulas holding modulo the named known-finding '
              'situations; every recorded run inside the model\'s scope is validated strictly as a behaviour of the model (EngineTrace.tla, '
-             'unlogged choices inferred by TLC) - a run that is not accepted is reported as DIVERGENCE.')
+             'unlogged choices inferred by TLC) - a run that is not accepted is reported as DIVERGENCE; in the other direction TLC-simulated behaviours of the model and its '
+             'counterexamples for the known-finding situations are stepped through the real engine, the projection compared after every step.')
 ENG_TECH_M = ENG_TECH + ' + exhaustive TLC model checking of MistralEngine.tla with strict trace validation of the recorded runs'
 
 # id -> (engine, category, text, note, technique, design_ref)
@@ -60,8 +62,8 @@ CHECKS = {
             'Generated direct DAGs (forks, all/one/N joins, guards, error routes, fail/succeed commands) and reverse graphs are run on the '
             'REAL engine inside a deterministic world where every RPC delivery, post-commit operation, scheduler sub-step and clock jump '
             'is an explicit schedule choice (8 policies, both schedulers); every step of every run is judged by TLC with the EngineProps '
-            'formulas NoHang, NoWaitingAtRest, DeclaredErrorsOnly (EngineObsTrace.tla).',
-            'Serial transactions in one process (tx_lock) - statement-level races between engine processes are out of reach here; sqlite; RPC transport, post-commit thread spawning, scheduler threads and action bodies replaced by the deterministic world; reliable messaging (duplicates/reordering explored, no loss).', 'TLA+ property formulas (EngineProps) evaluated by TLC on every step of recorded runs of the real engine under controlled schedules', '5, 7-C01'),
+            'formulas NoHang, NoWaitingAtRest, KnownTasksOnly, DeclaredErrorsOnly (incl. the exceptions the post-commit queue and the schedulers swallow); the final outcome of every eligible run is compared with the outcomes WfSemantics.tla prescribes (direct and reverse workflows, sub-workflows).' + ENG_MODEL + ' Budget: no operator, no redelivery - all delivery orders under both schedulers, liveness (Terminates under weak fairness) on three shapes.',
+            ENG_NOTE, ENG_TECH_M + ' + batch evaluation of the language semantics WfSemantics.tla as outcome oracle', '0, 5, 7-C01'),
     'C03': ('engine', 'model_checking',
             'Runs with operator commands (pause, resume, stop with each state, rerun) and duplicate deliveries injected at random points; '
             'TLC judges WfMoves (every committed state change AND every individual SQL-level state write against the transition table), '
@@ -69,8 +71,8 @@ CHECKS = {
             ENG_NOTE, ENG_TECH_M, '5, 7-C03'),
     'C04': ('engine', 'model_checking',
             'Fork/join shapes (nested joins, joins fed by on-error/on-complete, guards that do not fire) and reverse requires-graphs under '
-            'adversarial completion orders; TLC judges JoinGate, JoinOnce, Caused, ReqGate, OnlyNeededOnce, NoWaitingAtRest on every step.',
-            'Serial transactions in one process (tx_lock) - statement-level races between engine processes are out of reach here; sqlite; RPC transport, post-commit thread spawning, scheduler threads and action bodies replaced by the deterministic world; reliable messaging (duplicates/reordering explored, no loss).', 'TLA+ property formulas (EngineProps) evaluated by TLC on every step of recorded runs of the real engine under controlled schedules', '5, 7-C04'),
+            'adversarial completion orders (incl. joins fed by a 6-task branch breaking at every distance and a join behind the pause command); TLC judges JoinGate, JoinOnce, Caused, ReqGate, OnlyNeededOnce, NoWaitingAtRest on every step.' + ENG_MODEL + ' Statement level (two engine PROCESSES, READ COMMITTED): JoinRace.tla proves OneJoinRow / JoinStartsOnce / JoinGate / NoLostWakeup with every protecting primitive (named locks, unique key, refresh inside the lock, uncaptured-only dedupe) and shows which are load-bearing; PrimTrace.tla checks on the recorded transactions of the real engine that the primitives are used in the order that model assumes - a missing load-bearing primitive is a violation at model level.',
+            'Statement-level races are decided on the model only; the code is bound to it by the recorded order of primitives (locks, refresh, compare-and-swap, dedupe query), not by executing two processes. ' + ENG_NOTE, ENG_TECH_M + ' + statement-level TLA+ model (JoinRace) bound by primitive-usage conformance', '0.4b, 5, 7-C04'),
     'C05': ('dataflow', 'model_checking',
             'DataFlow.tla models the version-merge algorithm (outbound context = inbound + published with leaf-path counters; join = fold of '
             'the upstream contexts in any order) and TLC proves SeesLatest / NoStaleCopy for every DAG of up to 5 tasks, every publish placement '
@@ -112,8 +114,8 @@ CHECKS = {
             'Programs whose tasks carry retry, wait-before, wait-after, timeout (literal or expression) and fail-on policies, per-attempt '
             'outcomes from the oracle, under a virtual clock (one third of the runs lets timers fire ahead of pending results); TLC judges '
             'AttemptBound, StopAtFirstSuccess, FinalIffLast, DelayRespected, WaitBeforeRespected, WaitAfterRespected, TimeoutJudged, '
-            'FailOnApplied over whole recorded runs (creation and completion times of every action execution).',
-            ENG_NOTE, ENG_TECH, '5, 7-C08'),
+            'FailOnApplied over whole recorded runs (creation and completion times of every action execution).' + ENG_MODEL + ' Budget: the policy catalogue (retry count 2 on plain and join tasks, wait-before x timeout, wait-after, wait-after + retry, timeout + retry) under both schedulers, all orders of timer jobs and results.',
+            ENG_NOTE, ENG_TECH_M, '0, 5, 7-C08'),
     'C12': ('engine', 'model_checking',
             'Programs run to rest, then an ERROR task is rerun (reset on/off), skipped or rerun twice with a new outcome and run to rest '
             'again; TLC judges RerunRestores (task, workflow, enclosing workflows and parent tasks RUNNING), RerunReexecutes, '
